@@ -766,6 +766,23 @@ fn relate(mut m: RMsg, rel: u8) -> RMsg {
                 *t = *sid;
             }
         }
+        10 => {
+            // the storage time is the message's own time stamp in whole seconds
+            if let (Some(st), Some(t)) = (&mut m.storage, &m.tmsp) {
+                st.secs = *t;
+                st.micros = 0;
+            }
+        }
+        11 => {
+            // an extended header of ten zero bytes
+            if let Some(x) = &mut m.ext {
+                if matches!(m.payload, RPayload::NonVerbose(..)) {
+                    x.msin = 0;
+                    x.apid = String::new();
+                    x.ctid = String::new();
+                }
+            }
+        }
         8 | 9 => {
             // a carried run of records continues the carrier: same storage ECU id, counter + 1 (and, for 9, a header
             // ECU id that agrees with its storage id while the carrier's differ)
